@@ -40,9 +40,25 @@ def run(chk):
     cs = CaseSet("c09")
     plan = []
     for wi in range(nworlds):
+        rng.seed("%d/c09-1/%d" % (chk.seed, wi))      # every world has its own stream: families do not disturb each other
         modelled = rng.random() < 0.6
         has_cross = rng.random() < 0.85
         wj, sph = area_world(rng, cross=has_cross) if modelled else any_world(rng, cross=has_cross)
+        aimed = has_cross and wi % 5 == 1
+        if aimed:
+            # a section exactly along an axis, in the negative direction for half of them, through a layer that moves:
+            # the in-section velocity is the projection on the direction of the section, sign included
+            a, b = wj["cross section"]
+            if wi % 10 == 1:
+                b = [a[0] - abs(b[0] - a[0]) - (1.0 if sph else 1e4), a[1]]
+            else:
+                b = [a[0], a[1] - abs(b[1] - a[1]) - (1.0 if sph else 1e4)]
+            if sph:
+                b = [max(-359.0, b[0]), max(-85.0, b[1])]
+            wj["cross section"] = [a, b]
+            big = [[-170, -85], [170, -85], [170, 85], [-170, 85]] if sph else [[-5e6, -5e6], [5e6, -5e6], [5e6, 5e6], [-5e6, 5e6]]
+            wj["features"].insert(0, {"model": "mantle layer", "name": "flow", "coordinates": big,
+                                      "velocity models": [{"model": "uniform raw", "velocity": [0.031, -0.052, 0.017]}]})
         slot = cs.add_world(wj, model=modelled)
         if not has_cross:
             for which in ("p2", "t2", "c2", "g2"):
@@ -54,6 +70,8 @@ def run(chk):
             continue
         for qi in range(10):
             ps = prop_list(rng)
+            if aimed and not any(p[0] == 5 for p in ps):
+                ps = ps + [[5, 0, 0]]
             p2, d = query2d(rng, wj, sph)
             p3, dirv = map2d(wj, sph, p2)
             i2 = cs.p2(slot, p2, d, ps)
